@@ -54,7 +54,17 @@ class Run(RunBase):
             return len(set(op["ids"])) == len(op["ids"]) and len(op["ids"]) > 0 and \
                 all(i in self.contained for i in op["ids"])
         if k == "assign":
-            return op["ids"] is None or all(self.contained.get(i) in ("static", "dynamic") for i in op["ids"])
+            if not (op["ids"] is None or all(self.contained.get(i) in ("static", "dynamic") for i in op["ids"])):
+                return False
+            if op.get("time_steps") is not None:
+                # documented use: time steps of the obstacles' horizons; a step before an obstacle's initial time
+                # step makes the library dereference a missing state (not generated)
+                for i, kind in self.contained.items():
+                    if kind == "dynamic" and (op["ids"] is None or i in op["ids"]):
+                        ob = self.sc.obstacle_by_id(i)
+                        if ob is not None and min(op["time_steps"]) < ob.initial_state.time_step:
+                            return False
+            return True
         return k in ("restart", "check")
 
     # ------------------------------------------------------------------ the oracle
@@ -114,7 +124,11 @@ class Run(RunBase):
             tag = f"{kind}<-{self.last}"
             if not self.assigned.get(oid):
                 continue
-            for t in self._timesteps(ob):
+            ts_assigned = self._timesteps(ob) if self.assigned[oid] is True else \
+                [t for t in self._timesteps(ob) if t in self.assigned[oid]]
+            if self.assigned[oid] is not True and len(ts_assigned) < len(self._timesteps(ob)):
+                self.probe("partially-assigned-obstacle-checked")
+            for t in ts_assigned:
                 center_t, shape_t, raw = self._truth(ob, t, polys)
                 for where, c, s in self._recorded(ob, t):
                     for what, rec, truth in (("center", c, center_t), ("shape", s, shape_t)):
@@ -143,6 +157,13 @@ class Run(RunBase):
                                     exp_dyn[lid].setdefault(t, set()).add(oid)
                 if sum(1 for v in shape_t.values() if v is True) >= 2:
                     self.probe("obstacle-on-several-lanelets")
+                if isinstance(ob, DynamicObstacle) and t > ob.initial_state.time_step:
+                    prev = ob.state_at_time(t - 1)
+                    cur = ob.state_at_time(t)
+                    if prev is not None and cur is not None and float(prev.position[0]) == float(cur.position[0]) \
+                            and float(prev.position[1]) == float(cur.position[1]) \
+                            and prev.orientation != cur.orientation:
+                        self.probe("standing-obstacle-turns-on-the-spot")
                 if any(shape_t[i] is True and center_t[i] is False for i in polys):
                     self.probe("shape-touches-lanelet-center-is-not-in")
                 self.probe(f"assigned-shape-{raw['t']}")
@@ -166,7 +187,8 @@ class Run(RunBase):
     def apply(self, op):
         out = getattr(self, "_op_" + op["op"])(op)
         self._check()
-        self.note_state([self.last, sorted(self.contained.items()), sorted(self.assigned.items())])
+        self.note_state([self.last, sorted(self.contained.items()),
+                         sorted((i, v if v in (True, False) else sorted(v)) for i, v in self.assigned.items())])
         return out
 
     def _op_check(self, op):
@@ -197,9 +219,10 @@ class Run(RunBase):
 
     def _op_assign(self, op):
         ids = op["ids"]
-        self.last = "assign[all]" if ids is None else "assign[subset]"
+        ts = op.get("time_steps")
+        self.last = ("assign[all]" if ids is None else "assign[subset]") + ("" if ts is None else "[time_steps]")
         try:
-            self.sc.assign_obstacles_to_lanelets(obstacle_ids=None if ids is None else set(ids))
+            self.sc.assign_obstacles_to_lanelets(time_steps=ts, obstacle_ids=None if ids is None else set(ids))
         except Exception as e:  # noqa
             kinds = sorted({self.universe_shape_kind(i) for i in (ids or self.contained)
                             if self.contained.get(i) in ("static", "dynamic")})
@@ -209,7 +232,17 @@ class Run(RunBase):
                             f"{type(e).__name__}: {str(e)[:200]}")
         for i, k in self.contained.items():
             if k in ("static", "dynamic") and (ids is None or i in ids):
-                self.assigned[i] = True
+                if ts is None or k == "static":
+                    self.assigned[i] = True
+                else:
+                    ob = self.sc.obstacle_by_id(i)
+                    hit = {t for t in ts if t in self._timesteps(ob)}
+                    if self.assigned.get(i) is True:
+                        pass  # everything was assigned before; re-assigning some steps changes nothing
+                    else:
+                        self.assigned[i] = set(self.assigned.get(i) or set()) | hit
+                        if set(self._timesteps(ob)) <= self.assigned[i]:
+                            self.assigned[i] = True
         return "ok"
 
     def universe_shape_kind(self, oid):
@@ -284,10 +317,16 @@ def _adder(rng, run, cfg):
 def _assigner(rng, run, cfg):
     while True:
         c = sorted(i for i, k in run.contained.items() if k in ("static", "dynamic"))
+        op = {"op": "assign", "ids": None}
         if c and rng.chance(0.5):
-            yield {"op": "assign", "ids": sorted(rng.subset(c, 0.5, at_least=1))}
-        else:
-            yield {"op": "assign", "ids": None}
+            op["ids"] = sorted(rng.subset(c, 0.5, at_least=1))
+        if rng.chance(cfg.get("p_time_steps", 0.0)):
+            dyn = [run.sc.obstacle_by_id(i) for i in (op["ids"] or c) if run.contained.get(i) == "dynamic"]
+            lo = max([o.initial_state.time_step for o in dyn if o is not None], default=0)
+            op["time_steps"] = sorted(rng.sample(range(lo, lo + 5), rng.randint(1, 3)))
+        if not run.enabled(op):
+            op.pop("time_steps", None)
+        yield op
 
 
 def _remover(rng, run, cfg):
@@ -322,18 +361,20 @@ class C07(Property):
     expected_probes = ["obstacle-on-several-lanelets", "shape-touches-lanelet-center-is-not-in", "assigned-shape-rect",
                        "assigned-shape-circ", "assigned-shape-poly", "assigned-shape-group", "remove-after-assign",
                        "readd-after-remove", "readd-after-remove-assigned", "restart-deepcopy", "restart-xml+assign",
-                       "restart-pb+assign", "restart-xml", "dynamic-without-prediction-read-with-assignment"]
+                       "restart-pb+assign", "restart-xml", "dynamic-without-prediction-read-with-assignment",
+                       "partially-assigned-obstacle-checked", "standing-obstacle-turns-on-the-spot"]
     assumptions = [
         "geometric truth comes from crkit.geom with its don't-care band; the footprint at a time step is read from the "
         "parameters of occupancy_at_time(t).shape (whether that occupancy is the right placement is C04)",
         "set-based dynamic obstacles are not part of the universes (the property's quantifier excludes them and "
         "assign_obstacles_to_lanelets cannot handle them today); environment and phantom obstacles are by-standers",
-        "assign_obstacles_to_lanelets is called with its defaults (all time steps, use_center_only=False)",
+        "assign_obstacles_to_lanelets is called with use_center_only=False, for all time steps or for a list of time "
+        "steps none of which precedes the initial time step of a selected dynamic obstacle",
         "the XML restart writes with 8 decimals; truth is recomputed on the geometry that was read back",
     ]
 
     def gen_config(self, rng):
-        return {"steps": rng.randint(5, 20), "restart_kinds": sorted(rng.subset(RESTARTS, 0.5, at_least=1)),
+        return {"steps": rng.randint(5, 20), "p_time_steps": rng.pick([0.0, 0.3, 0.6]), "restart_kinds": sorted(rng.subset(RESTARTS, 0.5, at_least=1)),
                 "restarts": rng.chance(0.6), "clients": sorted(rng.subset(["adder", "assigner", "remover", "readder"],
                                                                           0.85, at_least=2))}
 
@@ -347,7 +388,7 @@ class C07(Property):
             role = rng.weighted(["static", "dynamic", "dynamic_nopred", "env", "phantom"], [4, 5, 2, 0.5, 0.5])
             kinds = ("rect", "circ", "poly", "group") if rng.chance(0.25) else ("rect", "circ", "poly")
             spec = gen.gen_obstacle(rng, ids.take(), net, role=role, shape_kinds=kinds, on_road=0.85,
-                                    state_cls=rng.choice(["ks", "st"]), horizon=rng.randint(1, 4))
+                                    state_cls=rng.choice(["ks", "st"]), horizon=rng.randint(1, 4), p_stand=0.25)
             if spec.get("shape", {}).get("t") in ("rect", "poly") and rng.chance(0.3):
                 # long vehicles reach into neighbouring lanelets while their centre stays in one
                 if spec["shape"]["t"] == "rect":
@@ -399,6 +440,11 @@ class C07(Property):
                 yield dict(op, ids=op["ids"][:i] + op["ids"][i + 1:])
         if op["op"] == "assign" and op["ids"] is not None:
             yield dict(op, ids=None)
+        if op["op"] == "assign" and op.get("time_steps") is not None:
+            yield {k: v for k, v in op.items() if k != "time_steps"}
+            if len(op["time_steps"]) > 1:
+                for i in range(len(op["time_steps"])):
+                    yield dict(op, time_steps=op["time_steps"][:i] + op["time_steps"][i + 1:])
         if op["op"] == "restart" and op["how"] != "deepcopy":
             yield dict(op, how="deepcopy")
 
